@@ -416,7 +416,8 @@ Fixpoint hyp_mismatches2_from (i : N) (ks : list (lcase * bool)) : list N :=
   match ks with
   | [] => []
   | (k, clean) :: rest =>
-      (if negb clean || forallb (hyp_seg2 (ctx_of (k_ctx k)) (k_raw_dates k)) (k_segs k) then [] else [i])
+      (* (an [if], not [||]: vm_compute is call by value and must not evaluate the hypothesis on cases that are not clean) *)
+      (if (if clean then forallb (hyp_seg2 (ctx_of (k_ctx k)) (k_raw_dates k)) (k_segs k) else true) then [] else [i])
       ++ hyp_mismatches2_from (i + 1) rest
   end.
 
